@@ -18,7 +18,8 @@ Print Assumptions C18_kt_constant_in_loop.
 
 Theorem C18_factor_from_ratio :
   forall (NN : Num) (fpow : carrier NN -> carrier NN -> carrier NN) (b : builder NN) (r :
-    carrier NN), b_kt_ratio NN b = Some r -> factor NN (build NN fpow b) = nmax n0 (n1 - r)%num.
+    carrier NN), b_kt_ratio NN b = Some r -> factor NN (build NN fpow b) = nmin (nmax n0 (n1 -
+    r)%num) (fmax_ NN).
 Proof. exact OptLoop.C18_factor_from_ratio. Qed.
 Print Assumptions C18_factor_from_ratio.
 
@@ -40,9 +41,28 @@ Print Assumptions C18_factor_from_finish.
 Theorem C18_factor_at_zero_start :
   forall (NN : Num) (fpow : carrier NN -> carrier NN -> carrier NN) (b : builder NN), (n0 <?
     b_kt_start NN b)%num = false -> factor NN (build NN fpow b) = match b_kt_ratio NN b with |
-    Some r => nmax n0 (n1 - r)%num | None => tenth NN end.
+    Some r => nmin (nmax n0 (n1 - r)%num) (fmax_ NN) | None => tenth NN end.
 Proof. exact OptLoop.C18_factor_at_zero_start. Qed.
 Print Assumptions C18_factor_at_zero_start.
+
+Theorem C18_start_normalised :
+  forall (NN : Num) (fpow : carrier NN -> carrier NN -> carrier NN) (b : builder NN), kt_start
+    NN (build NN fpow b) = (if (b_kt_start NN b =? n0)%num then n0 else b_kt_start NN b).
+Proof. exact OptLoop.C18_start_normalised. Qed.
+Print Assumptions C18_start_normalised.
+
+Theorem C18_start_exact :
+  forall (fpow : carrier NumR -> carrier NumR -> carrier NumR) (b : builder NumR), kt_start NumR
+    (build NumR fpow b) = b_kt_start NumR b.
+Proof. exact R_build_kt_start. Qed.
+Print Assumptions C18_start_exact.
+
+Theorem C18_factor_ratio_exact :
+  forall (fpow : carrier NumR -> carrier NumR -> carrier NumR) (b : builder NumR) (r : R),
+    b_kt_ratio NumR b = Some r -> (1 - r <= IZR (2 ^ 1024 - 2 ^ 971))%R -> factor NumR (build
+    NumR fpow b) = Rmax 0 (1 - r).
+Proof. exact R_build_factor_ratio. Qed.
+Print Assumptions C18_factor_ratio_exact.
 
 Theorem C18_cooled_is_power :
   forall (kt0 f : R) (k : nat), cooled NumR kt0 f k = (kt0 * f ^ k)%R.
@@ -72,7 +92,7 @@ Print Assumptions C18_zero_stays_zero_real.
 Theorem C18_zero_stays_zero_binary64 :
   forall (fexp : F -> F) (fpow : F -> F -> F) (score : N -> list F -> option F) (b : builder
     NumF) (ps : list (carrier NumF)) (hs : list (handle NumF)) (s0 : F) (draws : list (draw
-    NumF)), b_kt_start NumF b = 0%float -> ratio_ok b -> let c := build NumF fpow b in kt NumF
+    NumF)), zero_start b -> let c := build NumF fpow b in kt NumF
     (run NumF fexp score c (init NumF c ps hs s0) draws) = 0%float.
 Proof. exact HillClimb.C05_zero_temperature_stays_zero. Qed.
 Print Assumptions C18_zero_stays_zero_binary64.
